@@ -529,11 +529,150 @@ impl Prop for C20 {
             if counted >= 2 && n >= 2 && d.items().any(|(_, f)| *f >= 2) {
                 tags.push("nt".into());
             }
+            // does the cut fall inside a frequency tie (then the word order decides)?
+            if let Some(k) = r.max_size {
+                if k > 0 && k == n {
+                    let ps = self.write_files(&r);
+                    if let Ok(Ok(full)) = std::panic::catch_unwind(|| {
+                        Dictionary::create(&ps, Some(100_000), r.max_seq, 0, r.chars, r.cg as u8, false)
+                    }) {
+                        let min_kept = d.items().map(|(_, f)| *f).min().unwrap_or(0);
+                        let max_omitted = full
+                            .items()
+                            .filter(|(w, _)| !d.items().any(|(k, _)| k == *w))
+                            .map(|(_, f)| *f)
+                            .max();
+                        if full.len() > n {
+                            tags.push("cut-active".into());
+                        }
+                        if max_omitted == Some(min_kept) {
+                            tags.push("cut-tie".into());
+                        }
+                    }
+                    for p in ps {
+                        let _ = std::fs::remove_file(p);
+                    }
+                }
+            }
+        }
+        // ties in get_closest (tagging only): several keys at minimal distance / with equal top frequency
+        if let Ok(s) = std::str::from_utf8(r.dfile.as_bytes()) {
+            let entries: Vec<(&str, usize)> = s
+                .lines()
+                .filter_map(|l| {
+                    let mut it = l.trim().split('\t');
+                    Some((it.next()?, it.next()?.parse().ok()?))
+                })
+                .collect();
+            if tags.iter().any(|t| t == "load-ok") && entries.len() >= 2 {
+                for (q, norm) in &r.queries {
+                    let nq = normalize(q, Normalization::NFKC, true);
+                    let ds: Vec<f64> = entries
+                        .iter()
+                        .map(|(k, _)| text_utils::edit::distance(&nq, k, true, false, false, *norm))
+                        .collect();
+                    let m = ds.iter().cloned().fold(f64::INFINITY, f64::min);
+                    let at_min: Vec<usize> = (0..ds.len()).filter(|i| ds[*i] == m).map(|i| entries[i].1).collect();
+                    if at_min.len() >= 2 {
+                        tags.push("closest-dtie".into());
+                        let top = *at_min.iter().max().unwrap();
+                        if at_min.iter().filter(|f| **f == top).count() >= 2 {
+                            tags.push("closest-ftie".into());
+                        }
+                        if at_min.iter().any(|f| *f != top) {
+                            tags.push("closest-fdecides".into());
+                        }
+                    }
+                }
+            }
         }
         if r.threads.iter().any(|t| *t >= 2) {
             tags.push("mt".into());
         }
         Some((out, tags))
+    }
+
+    /// Small scope, complete: every corpus of <= 3 lines of <= 2 words over {a, b, ab}
+    /// x max_size {None, 0, 1, 2, 3} x max_sequences {None, 2} x {word, char1, char3}, threads {0, 2};
+    /// paired round-robin with every dictionary file of <= 3 entries over keys {a, ab, b} x freqs {1, 2},
+    /// each queried with {a, b, ab, ac} under both measures.
+    fn exhaustive(&mut self, _tier: Tier) -> Vec<Val> {
+        let vocab = ["a", "b", "ab"];
+        let mut lines: Vec<String> = vec![String::new()];
+        for a in vocab {
+            lines.push(a.to_string());
+            for b in vocab {
+                lines.push(format!("{a} {b}"));
+            }
+        }
+        let mut corpora: Vec<Vec<String>> = vec![vec![]];
+        let mut last: Vec<Vec<String>> = vec![vec![]];
+        for _ in 0..3 {
+            let mut next = vec![];
+            for c in &last {
+                for l in &lines {
+                    let mut c2 = c.clone();
+                    c2.push(l.clone());
+                    next.push(c2);
+                }
+            }
+            corpora.extend(next.iter().cloned());
+            last = next;
+        }
+        let ents: Vec<String> = ["a", "ab", "b"]
+            .iter()
+            .flat_map(|k| [1, 2].iter().map(move |f| format!("{k}\t{f}\n")))
+            .collect();
+        let mut dfiles: Vec<String> = vec![String::new()];
+        let mut lastd: Vec<String> = vec![String::new()];
+        for _ in 0..3 {
+            let mut next = vec![];
+            for d in &lastd {
+                for e in &ents {
+                    next.push(format!("{d}{e}"));
+                }
+            }
+            dfiles.extend(next.iter().cloned());
+            lastd = next;
+        }
+        let queries: Vec<(String, bool)> = ["a", "b", "ab", "ac"]
+            .iter()
+            .flat_map(|q| [false, true].iter().map(move |n| (q.to_string(), *n)))
+            .collect();
+        let mut out = vec![];
+        let mut k = 0usize;
+        for c in &corpora {
+            for ms in [None, Some(0), Some(1), Some(2), Some(3)] {
+                for mq in [None, Some(2)] {
+                    for (chars, cg) in [(false, 1), (true, 1), (true, 3)] {
+                        let files = if c.len() >= 2 && k % 2 == 0 {
+                            vec![(true, c[..1].to_vec()), (k % 4 == 0, c[1..].to_vec())]
+                        } else {
+                            vec![(true, c.clone())]
+                        };
+                        let files = files
+                            .into_iter()
+                            .map(|(nl, l)| (nl || l.last().map_or(true, |s: &String| s.is_empty()), l))
+                            .collect();
+                        let r = Raw {
+                            chars,
+                            cg,
+                            max_size: ms,
+                            max_seq: mq,
+                            threads: vec![0, 2],
+                            files,
+                            arr: vec![k % 3, k % 2],
+                            hp: vec![k % 5, k % 3, 1],
+                            dfile: dfiles[k % dfiles.len()].clone(),
+                            queries: queries.clone(),
+                        };
+                        out.push(self.to_val(&r));
+                        k += 1;
+                    }
+                }
+            }
+        }
+        out
     }
 
     fn selfcheck(&mut self) -> Vec<String> {
